@@ -112,6 +112,47 @@ def r18_1(run):
                 run.ob('R18.1', u, a, 'the new entry is listed too', bool(new), slot='relist-new', message='the requested/new port is not part of the SETCONF (flow tags %s)' % sorted(tags))
 
 
+def r18_1b(run):
+    """path completeness of the re-listing: whatever list of existing ports the function goes on to use
+    (the one it strips to first tokens) is, on every path, the list it re-lists"""
+    u = CSE(run)
+    g = cfg_of(u)
+    # the stripping comprehension: X = [p.split()[0] for p in X]
+    strips = [n for n in g.real_nodes() if n.kind == 'stmt' and isinstance(n.ast, ast.Assign) and isinstance(n.ast.value, ast.ListComp)
+              and isinstance(n.ast.value.elt, ast.Subscript) and 'split()' in src(n.ast.value.elt) and isinstance(n.ast.value.generators[0].iter, ast.Name)]
+    run.floor('R18.1', 'option-stripping sites', len(strips), 1)
+    sc = [c for c in calls_in(u) if callee_attr(c) == 'set_conf']
+    for c in sc:
+        an = starred_arg_name(c)
+        if not an:
+            continue
+        loops = [n for n in g.live if n.kind == 'iter' and any(isinstance(a, ast.Call) and dotted(a.func) == an + '.append' for a in ast.walk(n.ast))]
+        for lp in loops:
+            it = lp.ast.iter
+            if not isinstance(it, ast.Name):
+                continue
+            rds = [r for r in reaching_defs(g, lp, it.id)]
+            for st in strips:
+                pre = st.ast.value.generators[0].iter.id
+                pre_defs = set(r.id for r in reaching_defs(g, st, pre))
+                ok = len(rds) == 1 and rds[0].kind == 'stmt'
+                why = '%d definitions of %s reach the re-listing loop' % (len(rds), it.id)
+                if ok:
+                    c0 = rds[0]
+                    v = def_value(c0, it.id)
+                    srcv = v
+                    while isinstance(srcv, ast.Call) and dotted(srcv.func) in ('list', 'tuple') and len(srcv.args) == 1:
+                        srcv = srcv.args[0]
+                    if isinstance(srcv, ast.ListComp) and isinstance(srcv.elt, ast.Name) and srcv.elt.id == getattr(srcv.generators[0].target, 'id', None):
+                        srcv = srcv.generators[0].iter
+                    ok = isinstance(srcv, ast.Name) and srcv.id == pre and set(r.id for r in reaching_defs(g, c0, pre)) == pre_defs
+                    why = '%s is %s, taken where %s has definitions %s (the stripped list is derived from %s)' % (
+                        it.id, src(v), pre, sorted(set(r.lineno for r in reaching_defs(g, c0, pre))), sorted(r2.lineno for r2 in reaching_defs(g, st, pre)))
+                run.ob('R18.1', u, lp.ast, 'on every path the re-listed lines are exactly the existing lines the function found', ok, slot='relist-complete',
+                       message='the list re-issued in the SETCONF is not one copy of the list of existing ports: %s - on some path an '
+                               'existing listener (e.g. the default one) is left out and Tor drops it' % why)
+
+
 def r18_2_3(run):
     u = CSE(run)
     g = cfg_of(u)
@@ -226,6 +267,7 @@ def r18_5(run):
 
 RULES = [
     ('R18.1', 'integrity flow: values paired with SOCKSPort in the SETCONF reach it from the GETCONF answer through identity-preserving operations only, plus the new entry', r18_1),
+    ('R18.1b', 'path completeness: the re-listed list is a single copy of the pre-strip list of existing ports', r18_1b),
     ('R18.2', 'one set_conf outside loops', r18_2_3),
     ('R18.3', 'set_conf only with socks_endpoint is None; existing ports tried first, matched by equality', lambda run: None),
     ('R18.4', 'fallback loop shape: [9050, 9150] in order, return on success, only ConnectError moves on, last error raised', r18_4),
